@@ -506,6 +506,16 @@ PROPS = {
         'units': ['c12'],
         'level': 'other',
         'obligation_prefixes': ['C12.'],
+        'scans': [
+            {'name': 'A10.memoize_called_at_two_sites', 'kind': 'grep_count', 'token': r'\bmemoize\s*\(', 'files': ['oal-syntax/src/parser.rs', 'oal-syntax/src/lib.rs', 'oal-syntax/src/lexer.rs', 'oal-syntax/src/atom.rs'], 'count': 2,
+             'why': 'memoize requires tag_of(p) == t, i.e. a tag names ONE production; the call sites are not under contract (closure combinators), so the two sites are counted and each is pinned'},
+            {'name': 'P12.parse_term_kind', 'kind': 'pinned_text', 'file': 'oal-syntax/src/parser.rs', 'path': [('fn', 'parse_term_kind')],
+             'why': 'the only memoize call with ParserTag::Term passes parse_term: precondition tag_of(p) == t of memoize (unit c12)'},
+            {'name': 'P12.parse_expression', 'kind': 'pinned_text', 'file': 'oal-syntax/src/parser.rs', 'path': [('fn', 'parse_expression')],
+             'why': 'the only memoize call with ParserTag::Expression passes the recursion-or-relation closure: precondition tag_of(p) == t of memoize (unit c12)'},
+            {'name': 'P12.parser_tags', 'kind': 'pinned_text', 'file': 'oal-syntax/src/parser.rs', 'path': [('enum', 'ParserTag')],
+             'why': 'two tags, one per memoized production'},
+        ],
         'technique': 'Verus contracts on the real memo-table functions of the parser context, Context::{cache, lookup, without_cache}, and on the real memoize relative to an assumed contract of the productions it calls (unit c12)',
         'level_text': 'Deductive proof (Verus/Z3) of the function-level half of "memoisation is invisible" only: the memo table is a faithful map — `cache` stores a result under exactly (cursor, production tag) and changes nothing else, '
                       '`lookup` returns exactly what is stored under that key and never changes the table, and with the bypass switch (`without_cache`) nothing is stored and every lookup misses. '
@@ -518,7 +528,7 @@ PROPS = {
         'level_note': 'ASSUMED: `HashMap<(Cursor, Tag), ParserResult>` as a trusted map shim (insert / get+cloned), ParserResult opaque and cloned to an equal value, the hit counter (a Cell) as an unspecified shim that does not overflow. Rule R5 (`mut self`).',
         'design_ref': 'DESIGN.md section 12.50',
         'explanation': 'Listed not applicable in the plan (closure combinators, Kani did not finish). The three functions that read and write the memo table are plain functions and carry the table-level half of the property.',
-        'assumptions': ['the HashMap shim', 'ParserResult::clone yields an equal value', 'every production called through the function pointer satisfies call_production\'s contract (answers prod_at(tag, cursor), keeps the table coherent, forgets nothing)', 'the tag passed to memoize is the tag of the production passed with it (precondition tag_of(p) == t; the call sites in oal-syntax are not under contract)'],
+        'assumptions': ['the HashMap shim', 'ParserResult::clone yields an equal value', 'every production called through the function pointer satisfies call_production\'s contract (answers prod_at(tag, cursor), keeps the table coherent, forgets nothing)', 'the tag passed to memoize is the tag of the production passed with it (precondition tag_of(p) == t): not a contract — the two call sites in oal-syntax/src/parser.rs are counted and pinned (scans A10, P12.*), an edit there makes the check UNDECIDED'],
         'not_decided': ['parsing with the table gives the tree and errors that parsing without it gives (needs the productions to satisfy the assumed contract)', 'the amount of parser work grows at most linearly with the number of tokens'],
     },
     'C10': {
